@@ -18,6 +18,7 @@ from harness import routing_util as ru
 from harness.core import Machinery
 
 PID = 'C11'
+RAMAN = {'quick': 8, 'thorough': 48}      # one generated mesh in so many holds RamanFiber spans (slow to design)
 
 TIERS = {
     #            4-site meshes, singles 1-in-Thin, lines, twins, pairs (free riders), 5-site meshes, Thin5, B3 seeded, CORONET
@@ -92,10 +93,10 @@ def run(chk):
     chk.exhaustive = True
     timing = dict(first_generation_and_b3_recording=round(time.time() - t0, 1))
     t1 = time.time()
-    stats, traces, metas = ru.b2(chk, PID, jobs, keep=keep_for_c11, extra=recorded)
+    stats, traces, metas = ru.b2(chk, PID, raman_every=RAMAN[chk.tier], jobs=jobs, keep=keep_for_c11, extra=recorded)
     acc = [stats]
     ru.pipelined(parts[1:], lambda part: ru.generate(chk, part, 'c11-gen4', workers=ru.share(2), **gen),
-                 lambda jb: acc.append(ru.merge_stats(acc.pop(), ru.b2(chk, PID, jb, keep=keep_for_c11)[0])))
+                 lambda jb: acc.append(ru.merge_stats(acc.pop(), ru.b2(chk, PID, raman_every=RAMAN[chk.tier], jobs=jb, keep=keep_for_c11)[0])))
     stats = acc[0]
     timing['b2_replay_and_judgement'] = round(time.time() - t1, 1)
     chk.cov['b2_4sites'] = stats
@@ -103,7 +104,7 @@ def run(chk):
         t1 = time.time()
         ids5 = [i for i in ru.stratified_meshes(5, p['meshes5'], rng) if i != 0]
         jobs5 = ru.generate(chk, ids5, 'c11-gen5', **dict(gen, NSites=5, Thin=p['thin5']))
-        stats5, _, _ = ru.b2(chk, PID, jobs5, keep=keep_for_c11)
+        stats5, _, _ = ru.b2(chk, PID, raman_every=RAMAN[chk.tier], jobs=jobs5, keep=keep_for_c11)
         chk.cov['b2_5sites'] = stats5
         timing['b2_5sites'] = round(time.time() - t1, 1)
     # non-vacuity: every verdict of the specification must have been exercised against the code
